@@ -690,7 +690,9 @@ def run_minibatch(res: core.UnitResult, u: dict):
             res.violation("minibatch", sig, {**case, **(extra or {})}, msg + f" [n={n} batch_size={bs} batch_seed={seed} K={K} validation model: {'none' if n_val is None else f'separate, n_validation={n_val}'}]")
 
         if int(r.iteration) != K:
-            raise RuntimeError(f"minibatch run ended at iteration {int(r.iteration)} instead of {K}")
+            # patience = max_iter = K + 1: only the iteration limit can stop this run, after exactly K iterations
+            bad("iteration-limit-not-respected", f"optim_flat with Stopper(max_iter={K + 1}) ran {int(r.iteration)} iterations instead of {K}")
+            continue
         sink.sort(key=lambda tg: tg[0])
         ts = [t for t, _ in sink]
         if ts != list(range(len(ts))):
